@@ -22,6 +22,14 @@
 //        entry point's default argument.  <o> = lt|gt|q4|rk, rk = order by the rank table (a
 //        permutation of key mod 32).  A moved-from OwnCmp that is called is flagged and silently
 //        falls back to key< ; a thrown exception (std::bad_function_call) is a violation.
+//        Construction patterns of a *named* compare-exchange object for the direct entry points (LESSONS 8,
+//        a CS_IfSwap that only keeps a reference to its comparator dangles in all of them): `nown-<o>`
+//        CS_IfSwap<OwnCmp> cs{OwnCmp(o)} built from a temporary, `fact-<o>` returned by value from a factory,
+//        `scop-<o>` heap-allocated from a local comparator whose scope ends before the sort, `fconv-<o>`
+//        CS_IfSwap<std::function> built from a plain functor (implicit conversion), `fp-<o>` a function
+//        pointer comparator (direct: named CS_IfSwap<fp>, dispatch: passed to sort()), `dnam` a named
+//        default-constructed CS_IfSwap<OwnCmp>.  OwnCmp's destructor poisons its table and marks the object,
+//        and the stack is scribbled over between construction and use.
 //   runi <ptr|rev|deque|stride> <variant> <family> <direct|dispatch> <n> <ord> <keys>
 //        the same through another random-access iterator kind (c15_entry.hpp `Seq`):
 //        rev = std::reverse_iterator over a slice in the middle of a larger buffer, deque =
@@ -39,6 +47,7 @@
 
 #include <algorithm>
 #include <functional>
+#include <memory>
 
 static const long long POISON = -999999937LL;
 
@@ -82,6 +91,7 @@ struct OwnCmp {
     explicit OwnCmp(char m = 'r') : rank(32), mode(m), moved(false) { for (int k = 0; k < 32; ++k) rank[size_t(k)] = rank_of(k); }
     OwnCmp(const OwnCmp&) = default;
     OwnCmp& operator=(const OwnCmp&) = default;
+    ~OwnCmp() { for (int& r : rank) r = 31 - r; moved = true; mode = 'x'; }   // a destroyed comparator is recognisable
     OwnCmp(OwnCmp&& o) noexcept : rank(std::move(o.rank)), mode(o.mode), moved(o.moved) { o.rank.clear(); o.moved = true; }
     OwnCmp& operator=(OwnCmp&& o) noexcept {
         if (this != &o) { rank = std::move(o.rank); mode = o.mode; moved = o.moved; o.rank.clear(); o.moved = true; }
@@ -96,16 +106,40 @@ struct OwnCmp {
 };
 
 typedef std::function<bool(const Elem&, const Elem&)> FnCmp;
+typedef bool (*FpCmp)(const Elem&, const Elem&);
+static bool fp_lt(const Elem& a, const Elem& b) { return a.key < b.key; }
+static bool fp_gt(const Elem& a, const Elem& b) { return a.key > b.key; }
+static bool fp_q4(const Elem& a, const Elem& b) { return fdiv4(a.key) < fdiv4(b.key); }
+
+// overwrite the dead part of the stack (storage of temporaries that ended before the sort starts)
+__attribute__((noinline)) static unsigned scribble() {
+    volatile unsigned char junk[2048];
+    for (size_t i = 0; i < sizeof(junk); ++i) junk[i] = 0x5A;
+    unsigned s = 0;
+    for (size_t i = 0; i < sizeof(junk); i += 97) s += junk[i];
+    return s;
+}
+__attribute__((noinline)) static tlx::sort_networks::CS_IfSwap<OwnCmp> make_cswap(char mode) {
+    return tlx::sort_networks::CS_IfSwap<OwnCmp>(OwnCmp(mode));
+}
+__attribute__((noinline)) static tlx::sort_networks::CS_IfSwap<OwnCmp>* new_cswap_from_local(char mode) {
+    OwnCmp local;            // default-constructed, state set afterwards
+    local.mode = mode;
+    return new tlx::sort_networks::CS_IfSwap<OwnCmp>(local);
+}
+static volatile unsigned g_sink;
 
 // "fn-lt" -> carrier "fn", base "lt"; "ownd" -> carrier "ownd", base "rk"; "lt" -> carrier "", base "lt"
 static bool split_ord(const std::string& ord, std::string& carrier, std::string& base) {
     size_t d = ord.find('-');
     if (ord == "ownd") { carrier = "ownd"; base = "rk"; return true; }
+    if (ord == "dnam") { carrier = "dnam"; base = "rk"; return true; }
     if (d == std::string::npos) { carrier = ""; base = ord; return base == "lt" || base == "gt" || base == "q4" || base == "def"; }
     carrier = ord.substr(0, d);
     base = ord.substr(d + 1);
-    if (!(carrier == "fn" || carrier == "fnt" || carrier == "own" || carrier == "ownt")) return false;
-    if (base == "rk") return carrier == "own" || carrier == "ownt";
+    bool owning = carrier == "own" || carrier == "ownt" || carrier == "nown" || carrier == "fact" || carrier == "scop";
+    if (!(owning || carrier == "fn" || carrier == "fnt" || carrier == "fp" || carrier == "fconv")) return false;
+    if (base == "rk") return owning;
     return base == "lt" || base == "gt" || base == "q4";
 }
 
@@ -147,6 +181,46 @@ struct Caller {
         }
 #ifndef C15_NO_DEFAULT
         if (carrier == "ownd") return c15::call_default_as<OwnCmp>(fam, entry, n, a);
+#endif
+        using tlx::sort_networks::CS_IfSwap;
+        if (carrier == "fp") {
+            FpCmp f = mode == 'g' ? fp_gt : mode == 'q' ? fp_q4 : fp_lt;
+            if (entry == 1) return c15::call_dispatch(fam, n, a, mode == 'g' ? fp_gt : mode == 'q' ? fp_q4 : fp_lt);
+            if (mode == 'g') { CS_IfSwap<FpCmp> cs(fp_gt); g_sink = scribble(); return c15::call_direct(fam, n, a, cs); }
+            if (mode == 'q') { CS_IfSwap<FpCmp> cs(fp_q4); g_sink = scribble(); return c15::call_direct(fam, n, a, cs); }
+            (void)f;
+            CS_IfSwap<FpCmp> cs(fp_lt);
+            g_sink = scribble();
+            return c15::call_direct(fam, n, a, cs);
+        }
+        if (entry != 0) return false;   // the remaining patterns construct a named CS_IfSwap: direct entry points only
+        if (carrier == "nown") {
+            CS_IfSwap<OwnCmp> cs{OwnCmp(mode)};
+            g_sink = scribble();
+            return c15::call_direct(fam, n, a, cs);
+        }
+        if (carrier == "fact") {
+            CS_IfSwap<OwnCmp> cs = make_cswap(mode);
+            g_sink = scribble();
+            return c15::call_direct(fam, n, a, cs);
+        }
+        if (carrier == "scop") {
+            std::unique_ptr<CS_IfSwap<OwnCmp> > cs(new_cswap_from_local(mode));
+            g_sink = scribble();
+            return c15::call_direct(fam, n, a, *cs);
+        }
+        if (carrier == "fconv") {
+            Cmp c = {mode};
+            CS_IfSwap<FnCmp> cs(c);   // implicit conversion Cmp -> std::function creates a temporary
+            g_sink = scribble();
+            return c15::call_direct(fam, n, a, cs);
+        }
+#ifndef C15_NO_DEFAULT
+        if (carrier == "dnam") {
+            CS_IfSwap<OwnCmp> cs;     // default argument Comparator()
+            g_sink = scribble();
+            return c15::call_direct(fam, n, a, cs);
+        }
 #endif
         return false;
     }
@@ -257,9 +331,10 @@ int main(int argc, char** argv) {
             std::string carrier, base;
             if (kind < 0 || variant < 0 || fam < 0 || entry < 0 || !c15::exists(fam, entry, n) || int(keys.size()) != n ||
 #ifdef C15_NO_DEFAULT
-                ord == "def" || ord == "ownd" ||   // the default forms do not compile against this tree (see checks/c15.py)
+                ord == "def" || ord == "ownd" || ord == "dnam" ||   // the default forms do not compile against this tree (see checks/c15.py)
 #endif
-                !split_ord(ord, carrier, base) || (!carrier.empty() && kind != c15::K_PTR)) {
+                !split_ord(ord, carrier, base) || (!carrier.empty() && kind != c15::K_PTR) ||
+                (entry != 0 && (carrier == "nown" || carrier == "fact" || carrier == "scop" || carrier == "fconv" || carrier == "dnam"))) {
                 vh::answer("bad-op");
                 continue;
             }
